@@ -100,8 +100,80 @@ def run(ctx, rep):
     except Exception as e:
         import traceback; traceback.print_exc()
         rep.fail("R02.10", "engine", "transparent polyline analysis crashed: %r" % (e,), status="undecided")
+    try:
+        collapsed_case(prog, rep)
+    except Exception as e:
+        import traceback; traceback.print_exc()
+        rep.fail("R02.11", "engine", "collapsed-case analysis crashed: %r" % (e,), status="undecided")
     from rules import axis
     axis.run_for(ctx.program("default"), rep, 'R02.6', ['src/primitives/rectangle/styled.rs', 'src/primitives/triangle/styled.rs', 'src/primitives/polyline/styled.rs', 'src/primitives/line/styled.rs', 'src/text', 'src/mono_font', 'src/image'], 'bounding boxes and drawn rectangles are built per axis')
+
+def collapsed_case(prog, rep):
+    """R02.11 the collapsed-triangle special case depends on the geometry alone.  `ScanlineIntersections::new` stores
+    is_collapsed = triangle.is_collapsed(stroke_width, stroke_offset) && stroke_offset == Right: an inside stroke that
+    fills the whole triangle is then rendered as the triangle itself, which is what keeps it inside the styled bounding
+    box (only rows are clipped to the box).  On every path the stored flag must be decided by these two conditions:
+    a path that stores `false` has refuted one of them, a path that stores `true` has established both — a further
+    condition (no fill colour: "the special case only matters for fills") lets thick inside strokes leave the box."""
+    from mirq.paths import Paths, Unsupported, show_fact
+    from mirq.origin import mk_field
+    SI = "embedded_graphics::primitives::triangle::scanline_intersections::ScanlineIntersections"
+    try:
+        f = prog.method1(SI, "new", None)
+        fidx = {x["name"]: i for i, x in enumerate(prog.adts[SI]["variants"][0]["fields"])}
+        ci = fidx["is_collapsed"]
+    except Exception as e:
+        rep.fail("R02.11", "triangle:collapsed-case", "anchor lost: %s" % e, status="undecided")
+        return
+    try:
+        summs = Paths(prog, inline=lambda g: prog.is_new(g)).of(f)
+    except Unsupported as e:
+        rep.fail("R02.11", "triangle:collapsed-case", "cannot summarise: %s" % e, status="undecided", at=f.span, fn=f.path)
+        return
+    is_A = lambda t: t[0] == "call" and t[1].split("::")[-1] == "is_collapsed" and "Triangle" in t[1]
+    def is_B(t):
+        # stroke_offset == Right as a value
+        t = strip_refs(t)
+        if t[0] == "bin" and t[1] == "Eq":
+            return any(x[0] == "agg" and str(x[1]).endswith("StrokeOffset::Right") for x in t[2:4])
+        if t[0] == "call" and t[1].split("::")[-1] == "eq" and len(t[3]) == 2:
+            return any(strip_refs(x)[0] == "agg" and str(strip_refs(x)[1]).endswith("StrokeOffset::Right") for x in t[3])
+        return False
+    bad, und, n = [], [], 0
+    for sm in summs:
+        r = strip_refs(sm.ret)
+        while r[0] == "mut":
+            r = strip_refs(r[1])
+        if r[0] != "agg" or not str(r[1]).endswith("ScanlineIntersections"):
+            und.append("new() returns %s" % show(r, maxd=2)[:100])
+            continue
+        n += 1
+        c = strip_refs(r[2][ci])
+        A_true = any(fc[0] == "true" and is_A(strip_refs(fc[1])) for fc in sm.facts)
+        A_false = any(fc[0] == "false" and is_A(strip_refs(fc[1])) for fc in sm.facts)
+        B_true = any((fc[0] == "true" and is_B(fc[1])) or (fc[0] == "variant" and fc[2] == ("Right",)) or (fc[0] == "eq" and any(strip_refs(x)[0] == "agg" and str(strip_refs(x)[1]).endswith("StrokeOffset::Right") for x in fc[1:3])) for fc in sm.facts)
+        B_false = any((fc[0] == "false" and is_B(fc[1])) or (fc[0] == "variant" and "Right" not in fc[2] and any(v_ in ("Left", "None") for v_ in fc[2])) or (fc[0] == "ne" and any(strip_refs(x)[0] == "agg" and str(strip_refs(x)[1]).endswith("StrokeOffset::Right") for x in fc[1:3])) for fc in sm.facts)
+        if c == ("const", False):
+            if not (A_false or B_false):
+                bad.append("a path stores is_collapsed = false without having refuted `triangle.is_collapsed(..)` or `stroke_offset == Right` (conditions on it: %s)" % ("; ".join(show_fact(x)[:70] for x in sm.facts) or "none"))
+        elif c == ("const", True):
+            if not (A_true and B_true):
+                bad.append("a path stores is_collapsed = true without both conditions established")
+        elif is_B(c):
+            if not A_true:
+                bad.append("a path stores `stroke_offset == Right` as is_collapsed without triangle.is_collapsed(..) established")
+        elif is_A(c):
+            if not B_true:
+                bad.append("a path stores triangle.is_collapsed(..) as is_collapsed without `stroke_offset == Right` established")
+        else:
+            und.append("is_collapsed is %s" % show(c, maxd=3)[:120])
+    if bad:
+        rep.fail("R02.11", "triangle:collapsed-case", "; ".join(sorted(set(bad))[:2]), at=f.span, fn=f.path)
+    elif und or n < 2:
+        rep.fail("R02.11", "triangle:collapsed-case", "; ".join(sorted(set(und))[:2]) or "expected at least two paths (%d)" % n, status="undecided", at=f.span, fn=f.path)
+    else:
+        rep.ok("R02.11", "triangle:collapsed-case", at=f.span, fn=f.path, detail={"paths": n})
+
 
 def check_styled_boxes(prog, rep):
     """R02.3: the six closed shapes grow their box by exactly what stroke_area grows."""
